@@ -169,6 +169,11 @@ func (r *Run) Assume(s ...string) { r.assume = append(r.assume, s...) }
 // must contain "class" (violations are grouped by class + the known finding they match; the
 // smallest case of each group, by size, is kept as the replay artefact).
 func (r *Run) Violation(attrs map[string]string, size int, detail any) {
+	r.ViolationN(attrs, size, detail, 1)
+}
+
+// ViolationN reports n failing cases that share attrs (a group pre-aggregated by a driver).
+func (r *Run) ViolationN(attrs map[string]string, size int, detail any, n int64) {
 	r.mu.Lock()
 	defer r.mu.Unlock()
 	k := -1
@@ -181,7 +186,7 @@ func (r *Run) Violation(attrs map[string]string, size int, detail any) {
 	key := attrs["class"]
 	if k >= 0 {
 		key = "known:" + r.known[k].Name
-		r.knownHit[k]++
+		r.knownHit[k] += int(n)
 	}
 	c := r.classes[key]
 	if c == nil {
@@ -189,7 +194,7 @@ func (r *Run) Violation(attrs map[string]string, size int, detail any) {
 		r.classes[key] = c
 		r.order = append(r.order, key)
 	}
-	c.Count++
+	c.Count += n
 	if size < c.size || (size == c.size && fmt.Sprint(attrs) < fmt.Sprint(c.Attrs)) {
 		c.size = size
 		c.Attrs = attrs
